@@ -38,6 +38,8 @@ func main() {
 		os.Exit(hx.Replay(os.Args[2]))
 	case "try":
 		os.Exit(try(os.Args[2:]))
+	case "c10-graphs":
+		os.Exit(hx.RunGraphCasesChild())
 	case "check":
 		tier := os.Getenv("VERIF_TIER")
 		if len(os.Args) > 3 {
